@@ -27,7 +27,80 @@ func (b *bmcSys) newProcMachine(p *bproc, prefix []int) *Machine {
 	m.reads = map[string]bool{}
 	m.writes = map[string]bool{}
 	m.trackObjs = false
+	m.chanLenFn = func(c *Chan) Value {
+		m.touched = append(m.touched, c) // the local code depends on this channel's state
+		return b.intToBV(b.chanState(c).length)
+	}
+	m.arenaLoadFn = func(p *PtrV) Value { return b.arenaLoad(m, p) }
+	m.arenaStoreFn = func(p *PtrV, v Value) { b.arenaStore(m, p, v) }
+	m.arenaAllocFn = func(t types.Type, fr *Frame) Value { return b.arenaAlloc(m, t, fr) }
 	return m
+}
+
+// ---- arenas: bounded pools of objects allocated by running goroutines
+
+func (b *bmcSys) arenaLoad(m *Machine, p *PtrV) Value {
+	f := b.f
+	if p.Idx.IsConst() {
+		i := int(p.Idx.I)
+		if i < 0 || i >= len(p.Arena.Slots) {
+			m.goPanic("nil pointer dereference (arena)")
+		}
+		m.noteRead(p.Arena.Slots[i], p.Sub)
+		return getPath(m.objVal(p.Arena.Slots[i]), p.Sub)
+	}
+	if m.branch(f.Eq(p.Idx, f.IntC(-1)), "nil arena pointer") {
+		m.goPanic("nil pointer dereference")
+	}
+	var res Value
+	for i := len(p.Arena.Slots) - 1; i >= 0; i-- {
+		m.noteRead(p.Arena.Slots[i], p.Sub)
+		v := getPath(m.objVal(p.Arena.Slots[i]), p.Sub)
+		if res == nil {
+			res = v
+		} else {
+			res = m.merge(f.Eq(p.Idx, f.IntC(int64(i))), v, res)
+		}
+	}
+	return res
+}
+
+func (b *bmcSys) arenaStore(m *Machine, p *PtrV, v Value) {
+	f := b.f
+	if !p.Idx.IsConst() {
+		if m.branch(f.Eq(p.Idx, f.IntC(-1)), "nil arena pointer") {
+			m.goPanic("nil pointer dereference")
+		}
+	}
+	for i, slot := range p.Arena.Slots {
+		c := f.Eq(p.Idx, f.IntC(int64(i)))
+		if c.IsFalse() {
+			continue
+		}
+		m.noteWrite(slot, p.Sub)
+		old := m.objVal(slot)
+		m.setObjVal(slot, setPath(old, p.Sub, m.merge(c, v, getPath(old, p.Sub))))
+	}
+}
+
+func (b *bmcSys) arenaAlloc(m *Machine, t types.Type, fr *Frame) Value {
+	f := b.f
+	var ar *Arena
+	for _, a := range b.w.Arenas {
+		if types.Identical(a.T, t) {
+			ar = a
+		}
+	}
+	cur := ar.Next
+	if u, ok := m.pathUpd[ar.Next]; ok {
+		cur = u
+	}
+	m.pathUpd[ar.Next] = f.IAdd(cur, f.IntC(1))
+	// running out of slots is reported, never silently wrapped
+	m.asserts = append(m.asserts, assertRec{label: "arena.overflow(raise the arena size)", cond: f.ILt(cur, f.IntC(int64(len(ar.Slots))))})
+	p := &PtrV{Arena: ar, Idx: cur}
+	b.arenaStore(m, p, m.zero(t))
+	return p
 }
 
 func andT(f *term.Factory, ts ...*term.T) *term.T { return f.And(ts...) }
@@ -42,7 +115,7 @@ func (b *bmcSys) ready(a arm) *term.T {
 	bc := b.chanState(a.ch)
 	if bc.deadline != nil {
 		b.nowUsed = true
-		return f.ILe(bc.deadline, b.now)
+		return f.ULe(bc.deadline, b.now)
 	}
 	if a.send {
 		if a.ch.Cap == 0 {
@@ -65,7 +138,7 @@ func (b *bmcSys) outcomeSpecs(l *bloc) []*outcome {
 		bc := b.chanState(a.ch)
 		if bc.deadline != nil {
 			b.nowUsed = true
-			add(&outcome{name: "timer", arm: i, chanG: f.ILe(bc.deadline, b.now), chans: []*Chan{a.ch}, clock: true})
+			add(&outcome{name: "timer", arm: i, chanG: f.ULe(bc.deadline, b.now), chans: []*Chan{a.ch}, clock: true})
 			return
 		}
 		capc := f.IntC(int64(a.ch.Cap))
@@ -133,14 +206,14 @@ func (b *bmcSys) outcomeSpecs(l *bloc) []*outcome {
 		add(&outcome{name: "wg.wait", chanG: f.Eq(w, f.IntC(0))})
 	case opSleep:
 		b.nowUsed = true
-		add(&outcome{name: "wake", chanG: f.ILe(l.proc.sleepVar(b), b.now), clock: true})
+		add(&outcome{name: "wake", chanG: f.ULe(l.proc.sleepVar(b), b.now), clock: true})
 	}
 	return out
 }
 
 func (p *bproc) sleepVar(b *bmcSys) *term.T {
 	if p.sleep == nil {
-		p.sleep = b.newState(fmt.Sprintf("sleep.p%d", p.idx), term.Int, b.f.IntC(0))
+		p.sleep = b.newState(fmt.Sprintf("sleep.p%d", p.idx), term.BV(clockW), b.f.BVC(clockW, 0))
 	}
 	return p.sleep
 }
@@ -307,7 +380,7 @@ func (b *bmcSys) runProcPath(m *Machine, l *bloc, o *outcome) (p *bpath) {
 			upd[k] = v
 		}
 		np := &bpath{guard: f.And(m.pc...), upd: upd, dst: dst, asserts: m.asserts, covers: m.covers, inputs: m.inputs,
-			reads: m.reads, writes: m.writes, panicMsg: panicMsg}
+			reads: m.reads, writes: m.writes, panicMsg: panicMsg, choices: m.choiceSeq, chans: m.touched}
 		return np
 	}
 	defer func() {
@@ -336,7 +409,7 @@ func (b *bmcSys) runProcPath(m *Machine, l *bloc, o *outcome) (p *bpath) {
 		call := fr.blk.Instrs[fr.idx].(*ssa.Call)
 		d := m.get(fr, call.Common().Args[0]).(*term.T)
 		b.nowUsed = true
-		regUpd[l.proc.sleepVar(b)] = f.IAdd(b.now, b.durToInt(d))
+		regUpd[l.proc.sleepVar(b)] = f.Add(b.now, b.dur(d))
 	}
 	m.cut = false
 	return finish(dst, regUpd, "")
@@ -373,8 +446,12 @@ func (t *btrans) absorb(o *outcome, p *bpath, sub func(*term.T) *term.T) {
 		t.asserts = append(t.asserts, assertRec{label: a.label, cond: sub(a.cond)})
 	}
 	t.covers = append(t.covers, p.covers...)
+	t.choices = append(t.choices, p.choices...)
 	t.inputs = append(t.inputs, p.inputs...)
 	for _, c := range o.chans {
+		t.chans[c.ID] = true
+	}
+	for _, c := range p.chans {
 		t.chans[c.ID] = true
 	}
 	for k := range p.reads {
